@@ -554,4 +554,3 @@ func (g *Graph) Source(c Config) string {
 	sb.WriteString("%meta bmdef global registersize:8\n")
 	return sb.String()
 }
-
